@@ -135,7 +135,7 @@ def build(verbose=False, jobs=None):
         importlib.reload(regions)
         st.translator = regions.generate(REPO, COQ, os.path.join(COQ, 'golden'))
         if not os.path.exists(os.path.join(COQ, 'Makefile')):
-            sh('coq_makefile -f _CoqProject -o Makefile', cwd=COQ)
+            sh('./mkproject.sh', cwd=COQ)
         rc, out = sh(f'timeout 3000 make -k -j{jobs}', cwd=COQ, timeout=3100)
         st.make_log = out
         st.make_ok = (rc == 0)
